@@ -7,17 +7,17 @@ HOOK_COMMITS = ["e830588", "a6f2056", "d667224"]
 CHECKS = {
  "C01": dict(
   technique="runtime monitors under hostile workloads: panic hook with overflow checks and debug assertions, child-process death and per-call watchdog with isolated re-run, differential poison probes against fresh instances; Miri stage in the thorough tier",
-  text="Exploration: ~2.5e6 (quick) / ~1e8 (thorough) hostile inputs: every truncation and (strided in quick) single-bit corruption of every packet of the four bundled captures and of synthesised connections, every (kind,length,position) TCP option encoding, IP header-length grids in three framings, a link-layer grid (every assigned EtherType and a stride over all others, stacked tags, loopback family words, on frames of 0..26 octets and full length), seeded structural mutation of frames, TLS/HTTP streams and database text; all go through the TCP/HTTP/TLS/unified analyzers with and without filters, the three pools, analyze_pcap, the incremental readers/extractors, parsers, hash functions and every FromStr. Any panic (incl. arithmetic overflow), abnormal process death or confirmed non-return is a violation; every 64 hostile frames, and right after each crafted half-finished connection (also between the probes' own hosts), a set of probe connections on reserved addresses must be analysed exactly as by a fresh instance. Held = none observed.",
+  text="Exploration: ~2.5e6 (quick) / ~1e8 (thorough) hostile inputs: every truncation and (strided in quick) single-bit corruption of every packet of the four bundled captures and of synthesised connections, every (kind,length,position) TCP option encoding, IP header-length grids in three framings, a link-layer grid (every assigned EtherType and a stride over all others, stacked tags, loopback family words, on frames of 0..26 octets and full length), seeded structural mutation of frames, TLS/HTTP streams and database text; all go through the TCP/HTTP/TLS/unified analyzers with and without filters, the three pools, analyze_pcap, the incremental readers/extractors, parsers, hash functions and every FromStr. Any panic (incl. arithmetic overflow), abnormal process death or confirmed non-return is a violation; every 64 hostile frames, and right after each crafted half-finished connection (also between the probes' own hosts), a set of probe connections on reserved addresses must be analysed exactly as by a fresh instance (every fourth time: a fresh instance on a new thread); every 512 hostile byte streams a probe stream (TLS, HTTP/1, HTTP/2 with dynamic-table back-references, Akamai one-shot and incremental) must give the values taken on a new thread before any hostile stream, on the working thread and on another new thread; captures with refused record headers go through analyze_pcap under the watchdog. Held = none observed.",
   note="Non-termination is decided as bounded progress (20 s, then 60 s alone); memory safety only as far as the executed paths and Miri's reduced workload reach.",
   design="6 C01"),
  "C13": dict(
   technique="runtime oracle: synthesis of conforming traffic per bundled signature, packet-level analysis, and a p0f-level conformance predicate for earlier entries; dead signatures of the unchanged tree listed item by item as a known finding",
-  text="Exploration: each of the 199 TCP and 99 HTTP bundled signatures is instantiated as packets/messages (TCP: IPv4/IPv6, hop counts 0..30, admissible MSS/scale values, windows realising the window form, option bytes realising the layout, header bits realising exactly the quirks; 2000 variants per signature quick / 12000 thorough; HTTP: 16 variants over HTTP version, optional headers in/out, exact vs substring values, exact vs embedded software token, request method / response status, and -- for responses -- what the client did before: ordinary request, none, unlisted method, request after the response) and analysed at packet level; the best match must be the signature's own label or the label of an earlier entry the traffic conforms to; derived databases (bundled text with the sig lines of 1..3 labels per section commented out) must keep every own-label match of the bundled database. Held = every (signature, variant class) either reaches its label or is one of the 299 listed dead items.",
+  text="Exploration: each of the 199 TCP and 99 HTTP bundled signatures is instantiated as packets/messages (TCP: IPv4/IPv6, hop counts 0..30, admissible MSS/scale values, windows realising the window form (for mss*N also with MSS 48..100), option bytes realising the layout, header bits realising exactly the quirks; 2000 variants per signature quick / 12000 thorough; HTTP: 16 variants over HTTP version, optional headers in/out, exact vs substring values, exact vs embedded software token, request method / response status, and -- for responses -- what the client did before: ordinary request, none, unlisted method, request after the response; CRLF or bare-LF line ends) and analysed at packet level; the best match must be the signature's own label or the label of an earlier entry the traffic conforms to; derived databases (bundled text with the sig lines of 1..3 labels per section commented out) must keep every own-label match of the bundled database. Held = every (signature, variant class) either reaches its label or is one of the 299 listed dead items.",
   note="Conformance predicate and synthesis are the harness' own (c13.rs); a listed item that becomes reachable is noted, not reported.",
   design="6 C13"),
  "C04": dict(
   technique="runtime oracle: reference JA4 computed from the generating ClientHello model (independent SHA-256) + metamorphic permutation/GREASE checks, through four entry points; deviation models for two known findings",
-  text="Exploration: ~1.4e6 (quick) / ~1e8 (thorough) judged hellos: exhaustive grids (legacy versions x ordered supported_versions lists, cipher/extension counts around 99, all two-byte alphanumeric ALPN names, session-id/compression/record-version grid), repeated cipher-suite and signature-algorithm values, all n! orders of ciphers and extensions for n<=5/6 plus random orders for long lists, every subset of a GREASE sample at every position of every list; JA4, JA4_r, JA4_o, JA4_ro, a/b/c parts and the separately reported fields are compared with the reference and across parse function, reader, packet analyzer and unified analyzer. Held = only the two listed known-finding deviations observed.",
+  text="Exploration: ~1.4e6 (quick) / ~1e8 (thorough) judged hellos: exhaustive grids (legacy versions x ordered supported_versions lists, cipher/extension counts around 99 and around 256, all two-byte alphanumeric ALPN names, session-id/compression/record-version grid), repeated cipher-suite and signature-algorithm values, all n! orders of ciphers and extensions for n<=5/6 plus random orders for long lists, every subset of a GREASE sample at every position of every list, runs of hellos that differ from their predecessor in one list only; JA4, JA4_r, JA4_o, JA4_ro, a/b/c parts and the separately reported fields are compared with the reference and across parse function, reader, packet analyzer and unified analyzer. Held = only the two listed known-finding deviations observed.",
   note="Reference in tlsgen.rs (checked against the FoxIO README example); version and ALPN characters are masked where the published text is ambiguous (see evidence assumptions).",
   design="6 C04"),
  "C05": dict(
@@ -42,7 +42,7 @@ CHECKS = {
   design="6 C16"),
  "C17": dict(
   technique="runtime oracle: independent Akamai S|WU|P|PS reference over generated frame sequences + history check of the incremental extractor over all chunkings",
-  text="Exploration: ~2e6 (quick) / ~7e7 (thorough) judged fingerprints: SETTINGS with known/unknown/duplicate ids, reserved bits, WINDOW_UPDATE variants, PRIORITY frames with exclusive bit and all weights, HEADERS with every pseudo-header order and flag combination, with/without preface, one-shot from bytes and from frames, and incrementally under one chunk, every 2-cut, byte-by-byte, frame-by-frame and random k-cuts (Some exactly once on the chunk completing the first SETTINGS, equal to the one-shot fingerprint so far); header blocks use size updates and dynamic back-references so that decoder state left by an earlier extraction would show; streams with one oversized frame (16385..20084 octets) are judged differentially (incremental = one-shot of the bytes so far). Held = no difference.",
+  text="Exploration: ~2e6 (quick) / ~7e7 (thorough) judged fingerprints: SETTINGS with known/unknown/duplicate ids, reserved bits, WINDOW_UPDATE variants, PRIORITY frames with exclusive bit and all weights, HEADERS with every pseudo-header order and flag combination, with/without preface, one-shot from bytes and from frames, and incrementally under one chunk, every 2-cut, byte-by-byte, frame-by-frame and random k-cuts (Some exactly once on the chunk completing the first SETTINGS, equal to the one-shot fingerprint so far); header blocks use size updates and dynamic back-references so that decoder state left by an earlier extraction would show, and every second history runs on an extractor that was reset() after earlier histories; streams with one oversized frame (16385..20084 octets) are judged differentially (incremental = one-shot of the bytes so far). Held = no difference.",
   note="Reference checked against the published Chrome/Firefox strings; empty or malformed first SETTINGS run crash-only.",
   design="6 C17"),
  "C02": dict(
@@ -52,7 +52,7 @@ CHECKS = {
   design="6 C02"),
  "C11": dict(
   technique="runtime resource monitor: counting global allocator (thread-local and process-wide counters) read after every packet of long single connections and of over-capacity connection sets",
-  text="Exploration: 16 traffic kinds (unterminated HTTP heads, endless bodies, TLS application data after either hello, huge declared record, random bytes, 1-byte segments, timestamped ACKs, heads of the opposite role, several TLS records per segment, HTTP/2 DATA without HEADERS, pipelined requests, retransmission storm on seen sequence numbers, failing HPACK block that raised the table size followed by DATA) x 2 segment sizes x HTTP/TLS/TCP/unified analyzers and one-worker pools, 2e4 (quick) / 1e6 (thorough) segments each, plus connection sets 1.2..4x the capacity (sequential analyzers) and 8x the capacity inside one-worker HTTP/TLS pools whose queues are far longer than the capacity; retained bytes must stay <= 1 MiB per connection (capacity x 1 MiB overall) and the bytes allocated for one packet <= 4 MiB + 8 x its length at every index. Held = limits never crossed; evidence lists the maximum retained KiB per case.",
+  text="Exploration: 16 traffic kinds (unterminated HTTP heads, endless bodies, TLS application data after either hello, huge declared record, random bytes, 1-byte segments, timestamped ACKs, heads of the opposite role, several TLS records per segment, HTTP/2 DATA without HEADERS, pipelined requests, retransmission storm on seen sequence numbers, failing HPACK block that raised the table size followed by DATA) x 2 segment sizes (17th kind: a ClientHello fragment followed by a sequence hole and endless data) x HTTP/TLS/TCP/unified analyzers and one-worker pools, 2e4 (quick) / 1e6 (thorough) segments each, plus connection sets 1.2..4x the capacity and light sets of 40..400x the capacity in which every second connection is a complete exchange with header values seen nowhere else (sequential analyzers) and 8x the capacity inside one-worker HTTP/TLS pools whose queues are far longer than the capacity; retained bytes must stay <= 1 MiB per connection (capacity x 1 MiB overall) and the bytes allocated for one packet <= 4 MiB + 8 x its length at every index. Held = limits never crossed; evidence lists the maximum retained KiB per case.",
   note="Allocation volume is the work proxy; limits are fixed generous constants. Needs hooks H2/H3 for the worker path (allocation counter sampled at the dequeue/processed points).",
   design="6 C11"),
  "C12": dict(
@@ -77,7 +77,7 @@ CHECKS = {
   design="6 C18"),
  "C10": dict(
   technique="runtime differential with event log: worker pools vs sequential analyzers on the same traces, logical drain detection through hook events, seeded schedule perturbation at hook points",
-  text="Exploration: 400 (quick) / 6000 (thorough) seeded traces of 10..200 connections x the TCP, HTTP and TLS pools x 3..6 configurations (workers 1..16, batch 1/2/32, timeout 1/10 ms, perturbation rates) plus lock-step runs with a moving virtual clock, pools built by the analyzers' with_config + init_pool driven in lock-step with queues of 2..6 frames, hub traces in which a few hosts take part in many connections, and the parallel analyze_pcap entry; result multisets and per-connection/per-sender orders must equal the sequential run. Evidence counts the distinct result-arrival orders observed (schedule diversity). Held = no run differed; undrained or overflowing runs are inconclusive.",
+  text="Exploration: 400 (quick) / 6000 (thorough) seeded traces of 10..200 connections x the TCP, HTTP and TLS pools x 3..6 configurations (workers 1..16, batch 1/2/32, timeout 1/10 ms, perturbation rates) plus lock-step runs with a moving virtual clock, pools built by the analyzers' with_config + init_pool driven in lock-step with queues of 2..6 frames, hub traces in which a few hosts take part in many connections, UDP / ICMP datagrams and truncated TCP segments of the same hosts between the connections' frames, and the parallel analyze_pcap entry; result multisets and per-connection/per-sender orders must equal the sequential run. Evidence counts the distinct result-arrival orders observed (schedule diversity). Held = no run differed; undrained or overflowing runs are inconclusive.",
   note="Needs hooks H1, H2, H3. Only schedules that real threads plus perturbation produce are explored.",
   design="6 C10"),
  "C09": dict(
@@ -87,12 +87,12 @@ CHECKS = {
   design="6 C09"),
  "C07": dict(
   technique="runtime differential monitor: isolated vs interleaved analysis of scripted connections on the real analyzers (sequential, and free-running through the worker pools with hook-based drain detection), virtual clock, canonical per-frame / per-connection result comparison; Miri stage in the thorough tier",
-  text="Exploration: 24k (quick) / 800k (thorough) seeded scenarios of 2..8 connections (TCP handshakes with timestamps, multi-segment ClientHellos, HTTP/1.x, HTTP/2 incl. hostile HPACK blocks, garbage, truncated) are each analysed alone and under 3..5 order-preserving interleavings on the TCP, HTTP, TLS and unified analyzers; the per-frame canonical results of every connection must be identical in both runs. A quarter (quick) / half (thorough) of the scenarios are also dispatched free-running to the TCP, HTTP and TLS worker pools (1..3 workers, batch 1/2/4, built directly and by with_config + init_pool, seeded perturbation at the hook points) and each connection's results after logical drain must equal those of the connection alone; a reuse stage opens a second connection on the address/port pair of a completed one (HTTP, TLS) and demands the second connection's own results. Held = no connection's result sequence changed in any explored interleaving.",
+  text="Exploration: 24k (quick) / 800k (thorough) seeded scenarios of 2..8 connections (TCP handshakes with timestamps, multi-segment ClientHellos, HTTP/1.x, HTTP/2 incl. hostile HPACK blocks, garbage, truncated; mirrored address/port pairs; one scenario in 16 a crowd of 18..25 connections of one client address) are each analysed alone and under 3..5 order-preserving interleavings on the TCP, HTTP, TLS and unified analyzers; the per-frame canonical results of every connection must be identical in both runs. A quarter (quick) / half (thorough) of the scenarios are also dispatched free-running to the TCP, HTTP and TLS worker pools (1..3 workers, batch 1/2/4, built directly and by with_config + init_pool, seeded perturbation at the hook points) and each connection's results after logical drain must equal those of the connection alone; a reuse stage opens a second connection on the address/port pair of a completed one (HTTP, TLS) and demands the second connection's own results. Held = no connection's result sequence changed in any explored interleaving.",
   note="Needs hooks H1 (clock), H2 (pool drain) and H3 (per-packet entry). Reach is the sampled interleavings of the generated connection kinds; the configured capacity is 64 or (half of the scenarios) exactly the number of connections.",
   design="6 C07"),
  "C19": dict(
   technique="runtime oracle: online reference state machine (exact rational arithmetic) over episodes driven with a virtual clock hook",
-  text="Exploration: ~7e6 (quick) / ~5e7 (thorough) judged per-segment reports from episodes of timestamped segments whose arrival times are injected through the clock hook: every integer rate 0..1600 Hz x 13 intervals at the 25 ms / 100 ms / 600 s boundaries x 8 base timestamps (incl. wrap), minimum-tick and grid-boundary cases, backward movement, and seeded interleaved client/server sequences. Each report or absence of one is compared with the documented estimator restated as a state machine. Held = no segment's report differed.",
+  text="Exploration: ~7e6 (quick) / ~5e7 (thorough) judged per-segment reports from episodes of timestamped segments whose arrival times are injected through the clock hook: every integer rate 0..1600 Hz x 13 intervals at the 25 ms / 100 ms / 600 s boundaries x 8 base timestamps (incl. wrap), minimum-tick and grid-boundary cases, backward movement, an arrival clock that steps back by 1 ms .. 11 min, and seeded interleaved client/server sequences. Each report or absence of one is compared with the documented estimator restated as a state machine. Held = no segment's report differed.",
   note="Needs hook H1 (injectable clock). The grid, bounds and the backward-movement rule are restated from the crate's documentation; float/rational boundary agreement argued in c19.rs.",
   design="6 C19"),
  "C03": dict(
